@@ -9,6 +9,7 @@ import (
 	"sync"
 	"time"
 
+	"github.com/btcsuite/btcd/btcec/v2"
 	"github.com/btcsuite/btcd/btcutil"
 	"github.com/btcsuite/btcd/btcutil/hdkeychain"
 	"github.com/btcsuite/btcd/btcutil/psbt"
@@ -232,6 +233,101 @@ func (r *raceRun) freshAccount() (uint32, error) {
 		return 0, err
 	}
 	return acct, nil
+}
+
+// setupImported imports a private key and gives its address two confirmed coins.
+func (r *raceRun) setupImported() error {
+	e := r.e
+	pk, _ := btcec.PrivKeyFromBytes(walletSeed(4242, 9))
+	wif, err := btcutil.NewWIF(pk, e.params, true)
+	if err != nil {
+		return err
+	}
+	if _, err := e.w.ImportPrivateKey(r.scope, wif, nil, false); err != nil {
+		return err
+	}
+	addr, err := btcutil.NewAddressWitnessPubKeyHash(btcutil.Hash160(pk.PubKey().SerializeCompressed()), e.params)
+	if err != nil {
+		return err
+	}
+	script, _ := txscript.PayToAddrScript(addr)
+	var txs []*wire.MsgTx
+	for k := 0; k < 2; k++ {
+		tx := payTo(fmt.Sprintf("race-imp-%p", e), k, script, 2_000_000+int64(k))
+		txs = append(txs, tx)
+		op := wire.OutPoint{Hash: tx.TxHash(), Index: 0}
+		r.utxos[waddrmgr.ImportedAddrAccount] = append(r.utxos[waddrmgr.ImportedAddrAccount], op)
+		r.utxoOut[op] = tx.TxOut[0]
+	}
+	e.chain.Extend(txs)
+	return e.settle()
+}
+
+// gatePair parks caller A at its commit callback, runs caller B, releases A.
+func (r *raceRun) gatePair(sa, sb site, acct uint32, grace time.Duration, rep *common.Report, label string) (ra, rb callResult, bInWindow, ok bool) {
+	e := r.e
+	var mu sync.Mutex
+	first := true
+	reached := map[int]bool{}
+	parked := make(chan struct{}, 4)
+	release := make(chan struct{})
+	setGate(func(name string) {
+		if name != "nextaddr.oncommit" {
+			return
+		}
+		mu.Lock()
+		isFirst := first
+		first = false
+		if isFirst {
+			reached[1] = true
+		} else {
+			reached[2] = true
+		}
+		mu.Unlock()
+		if isFirst {
+			parked <- struct{}{}
+			<-release
+		}
+	})
+	defer setGate(nil)
+	resA := make(chan callResult, 1)
+	resB := make(chan callResult, 1)
+	go func() {
+		addr, err := sa.call(e, acct, r)
+		resA <- callResult{1, sa.name, addr, err}
+	}()
+	aDone := false
+	select {
+	case <-parked:
+	case ra = <-resA:
+		aDone = true
+	case <-time.After(10 * time.Second):
+		rep.AddError("%s: caller A neither parked nor finished", label)
+		close(release)
+		return ra, rb, false, false
+	}
+	go func() {
+		addr, err := sb.call(e, acct, r)
+		resB <- callResult{2, sb.name, addr, err}
+	}()
+	if !aDone {
+		select {
+		case rb = <-resB:
+			bInWindow = true
+		case <-time.After(grace):
+		}
+		close(release)
+		ra = <-resA
+	}
+	if !bInWindow {
+		select {
+		case rb = <-resB:
+		case <-time.After(20 * time.Second):
+			rep.AddError("%s: caller B did not finish", label)
+			return ra, rb, false, false
+		}
+	}
+	return ra, rb, bInWindow, true
 }
 
 type callResult struct {
@@ -506,6 +602,51 @@ func runRace(seed int, root string, grace time.Duration, stressRounds int, trace
 				}
 			}
 			traces = append(traces, tr)
+		}
+	}
+
+	// (i') sites that name different accounts but issue on the same branch: a spend from the
+	// imported-keys account takes its change from the default account's internal branch
+	if err := r.setupImported(); err != nil {
+		rep.AddError("imported account: %v", err)
+		return
+	}
+	cross := []site{
+		sites[2], // NewChangeAddress(0)
+		{"CreateSimpleTx(imported)", 1, func(e *env, _ uint32, r *raceRun) (btcutil.Address, error) {
+			outs := []*wire.TxOut{wire.NewTxOut(150_000, r.foreign)}
+			atx, err := e.w.CreateSimpleTx(&r.scope, waddrmgr.ImportedAddrAccount, outs, 1, 1000, wallet.CoinSelectionLargest, false)
+			if err != nil {
+				return nil, err
+			}
+			return changeAddrOf(atx.Tx, atx.ChangeIndex, e)
+		}},
+		{"FundPsbt(imported)", 1, func(e *env, _ uint32, r *raceRun) (btcutil.Address, error) {
+			op := r.utxos[waddrmgr.ImportedAddrAccount][0]
+			pkt, err := psbt.New([]*wire.OutPoint{&op}, []*wire.TxOut{wire.NewTxOut(150_000, r.foreign)}, 2, 0, []uint32{wire.MaxTxInSequenceNum})
+			if err != nil {
+				return nil, err
+			}
+			ci, err := e.w.FundPsbt(pkt, &r.scope, 1, waddrmgr.ImportedAddrAccount, 1000, wallet.CoinSelectionLargest)
+			if err != nil {
+				return nil, err
+			}
+			return changeAddrOf(pkt.UnsignedTx, int(ci), e)
+		}},
+	}
+	for ai := range cross {
+		for bi := range cross {
+			ext0, int0, _ := r.counts(0)
+			label := cross[ai].name + "|" + cross[bi].name
+			scenario := map[string]interface{}{"A": cross[ai].name, "B": cross[bi].name, "account": 0}
+			ra, rb, bIn, ok := r.gatePair(cross[ai], cross[bi], 0, grace, rep, label)
+			if !ok {
+				return
+			}
+			scenario["B_finished_inside_window"] = bIn
+			verdict(label, 0, ext0, int0, []callResult{ra, rb}, scenario)
+			rep.Nontriv("gate|" + label)
+			rep.Inc("gate_scenarios", 1)
 		}
 	}
 
